@@ -252,6 +252,9 @@ func runOne(t *testing.T, ms []outcome, c *mc.Chooser) (out mc.Outcome) {
 		}
 		viol("panic", "panic: %v\n%s", res.Panic, res.Stack)
 	}
+	if res.Hang != "" {
+		viol("hang", "%s", res.Hang)
+	}
 	if res.Deadlock != "" {
 		out.Obs += " LEAK"
 	}
